@@ -27,6 +27,9 @@ use tokio::{
     sync::{mpsc, oneshot},
 };
 
+/// Largest datagram we send. It is also the size of the receive buffer in `Socket::recv`.
+const MAX_DATAGRAM_LEN: usize = 1500;
+
 /// Storage for our EventLoop to invoke actions upon.
 pub(crate) struct DhtHandler {
     this_node_id: NodeId,
@@ -276,10 +279,23 @@ impl DhtHandler {
                     nodes_v6,
                     token: Some(token.as_ref().to_vec()),
                 };
-                let get_peers_msg = Message {
+                let mut get_peers_msg = Message {
                     transaction_id: message.transaction_id,
                     body: MessageBody::Response(get_peers_rsp),
                 };
+
+                // A reply that does not fit into the receive buffer of the requester (see
+                // `Socket::recv`) is useless to it, so hand out only as many values as fit.
+                let encoded_len = get_peers_msg.encode().map(|bytes| bytes.len()).unwrap_or(0);
+                if let (Some(excess), MessageBody::Response(rsp)) = (
+                    encoded_len.checked_sub(MAX_DATAGRAM_LEN + 1),
+                    &mut get_peers_msg.body,
+                ) {
+                    // Length prefix and colon plus the compact address.
+                    let value_len = if addr.is_ipv4() { 2 + 6 } else { 3 + 18 };
+                    let keep = rsp.values.len().saturating_sub(excess / value_len + 1);
+                    rsp.values.truncate(keep);
+                }
 
                 self.socket.send(&get_peers_msg, addr).await?
             }
